@@ -236,13 +236,13 @@ class SequentialCB(Evaluator):
             if out_time    : out['learn_time']   = learn_time if learn else 0
             if out_context : out['context']      = context
             if out_actions : out['actions']      = actions
-            if out_action  : out['action']       = on_act
+            if out_action  : out['action']       = on_act if not batched else Batch.List(on_act)
             if out_reward  : out['reward']       = eval_reward
             if out_rewards : out['rewards']      = get_rewards(rewards,actions)
             if out_ope_loss: out['ope_loss']     = get_ope_loss(learner)
 
             if out_prob and should_pred and on_pr is not None:
-                out['probability'] = on_pr
+                out['probability'] = on_pr if not batched else Batch.List(on_pr)
 
             out.update({k: interaction[k] for k in interaction.keys()-SequentialCB._IMPLICIT_EXCLUDE})
 
